@@ -28,6 +28,7 @@ func checkC02(c *Ctx) {
 	c.Rule("C02/R9", "measurements: each measurement is recorded under Tidy's unit with the pair as written kept alongside exactly when the unit was rewritten (string comparison of the units; same rule as C04/R1)")
 	c.Rule("C02/R8", "file labels: in Files.init an input is counted towards 'same path given more than once' exactly when it carries no explicit label, which is exactly the set of inputs the disambiguation loop may relabel; a labelled input keeps the user's label")
 
+	c.Rule("C02/R12", "key lines: nothing a 'key: value' recogniser tests before decoding the first character rejects a line that begins with a lower-case letter (evaluated for ASCII letters and the lead bytes of multi-byte lower-case letters)")
 	p := mustLoad(c, loadOpts{}, "./benchfmt", "./storage/benchfmt")
 	c03FastFloat(c, p, "C02/R7")
 	c02Dispatch(c, p)
@@ -39,6 +40,7 @@ func checkC02(c *Ctx) {
 	c02Index(c, p)
 	c02Reset(c, p)
 	c02Progress(c, p)
+	c02KeyStart(c, p, "C02/R12")
 	// R6: reuse the sibling rule
 	sub := newCtx(c.Prop, c.Tier)
 	sub.RepoDir, sub.VerifDir, sub.HomeDir = c.RepoDir, c.VerifDir, c.HomeDir
@@ -949,4 +951,117 @@ func c02UnitKey(c *Ctx, p *Prog) {
 		}
 	}
 	c.Floor(R, "paths recording unit metadata", n, 1)
+}
+
+// c02KeyStart: a configuration key may begin with any lower-case letter. Whatever a recogniser tests before it decodes
+// the first character (a byte-level pre-filter) must let every such line through: evaluated for sample first bytes —
+// ASCII lower-case letters and the lead bytes of multi-byte lower-case letters (µ, é, λ, д, ა, 𝒶).
+func c02KeyStart(c *Ctx, p *Prog, R string) {
+	n := 0
+	for _, rel := range []string{"benchfmt", "storage/benchfmt"} {
+		if !p.HasPkg(rel) {
+			continue
+		}
+		fn := p.Fn(rel, "parseKeyValueLine")
+		if fn == nil {
+			continue
+		}
+		loops := naturalLoops(fn)
+		if len(loops) == 0 || len(fn.Params) == 0 {
+			c.Undecided(R, rel+".parseKeyValueLine:loop", p.pos(fn.Pos()), "no character loop found")
+			continue
+		}
+		// the first loop in block order
+		lp := loops[0]
+		for _, l := range loops {
+			if l.Header.Index < lp.Header.Index {
+				lp = l
+			}
+		}
+		line := "param:" + fn.Params[0].Name()
+		for _, v := range []int64{'a', 'm', 'z', 0xC2, 0xC3, 0xCE, 0xD0, 0xE1, 0xF0} {
+			v := v
+			var intEval func(s *Sym) (int64, bool)
+			intEval = func(s *Sym) (int64, bool) {
+				switch {
+				case s.Op == "const" && s.Const != nil && s.Const.Kind() == constant.Int:
+					return constant.Int64Val(s.Const)
+				case s.Op == "call" && s.Name == "len" && len(s.Args) == 1 && s.Args[0].String() == line:
+					return 5, true
+				case s.Op == "convert" && len(s.Args) == 1:
+					return intEval(s.Args[0])
+				case s.Op == "index" && s.Args[0].String() == line:
+					if i, ok := intEval(s.Args[1]); ok && i == 0 {
+						return v, true
+					}
+				case s.Op == "load" && s.Args[0].Op == "indexaddr" && s.Args[0].Args[0].String() == line:
+					if i, ok := intEval(s.Args[0].Args[1]); ok && i == 0 {
+						return v, true
+					}
+				case s.Op == "binop" && (s.Tok == token.ADD || s.Tok == token.SUB):
+					a, ok1 := intEval(s.Args[0])
+					b, ok2 := intEval(s.Args[1])
+					if ok1 && ok2 {
+						if s.Tok == token.ADD {
+							return a + b, true
+						}
+						return a - b, true
+					}
+				}
+				return 0, false
+			}
+			decide := func(s *Sym) (bool, bool) {
+				if s.Op != "binop" {
+					return false, false
+				}
+				a, ok1 := intEval(s.Args[0])
+				b, ok2 := intEval(s.Args[1])
+				if !ok1 || !ok2 {
+					return false, false
+				}
+				switch s.Tok {
+				case token.LSS:
+					return a < b, true
+				case token.LEQ:
+					return a <= b, true
+				case token.GTR:
+					return a > b, true
+				case token.GEQ:
+					return a >= b, true
+				case token.EQL:
+					return a == b, true
+				case token.NEQ:
+					return a != b, true
+				}
+				return false, false
+			}
+			outs, why := e6Enumerate(func() *e6Interp {
+				return &e6Interp{PureCall: func(f *types.Func) bool { return true }, Decide: decide, MaxAtoms: 12}
+			}, fn.Blocks[0], nil, map[*ssa.BasicBlock]bool{lp.Header: true}, 256)
+			key := fmt.Sprintf("%s.parseKeyValueLine:first-byte-0x%02X", rel, v)
+			if why != "" && len(outs) == 0 {
+				c.Undecided(R, key, p.pos(fn.Pos()), why)
+				continue
+			}
+			n++
+			rejected := false
+			for _, o := range outs {
+				if o.Term != "return" {
+					continue
+				}
+				// only outcomes all of whose conditions were answered from the first byte and the length
+				all := true
+				for k := range o.Assign {
+					if _, ok := decide(o.AtomSyms[k]); !ok {
+						all = false
+					}
+				}
+				if all {
+					rejected = true
+				}
+			}
+			c.Check(!rejected, R, key, p.pos(fn.Pos()), "the line reaches the character loop", fmt.Sprintf("a line whose first byte is 0x%02X is rejected before its first character is decoded: keys may begin with any lower-case letter, and for a multi-byte one (µarch, éditeur) this is its lead byte, so a configuration line the writer emits is ignored when read back", v))
+		}
+	}
+	c.Floor(R, "first-byte samples over the key recognisers", n, 9)
 }
